@@ -9,7 +9,9 @@ Record gen := mkGen { g_fd : N; g_int : interest; g_mode : mode; g_tok : option 
 (* tm_en: registered to (enabled in) a loop, whether or not a deadline is armed *)
 Record timer := mkTimer { tm_reg : option (tok * N); tm_dl : option Z; tm_en : bool }.
 Inductive src :=
-| SComp (lc : bool) (own : option tok) (subs : list gen)   (* harness composite over Generic<eventfd> sub-sources *)
+| SComp (lc : bool) (own : option tok) (subs : list gen) (tmr : option timer)
+    (* harness composite over Generic<eventfd> sub-sources and, optionally, a Timer as its last sub-source; it shows every
+       event to every sub-source and relies on each of them ignoring foreign tokens *)
 | SPing (g : gen)                                          (* PingSource *)
 | STimer (t : timer)
 | SChan (c : N) (g : gen).                                 (* Channel: mpsc receiver c + PingSource *)
@@ -202,15 +204,25 @@ Definition timer_register (e0 : env) (t0 : timer) (f : factory) : rr * timer * e
   | None => (RROk, mkTimer None None true, e)
   end.
 
+(* reregister: updating a disabled timer must not arm it *)
+Definition timer_reregister (e : env) (t : timer) (f : factory) : rr * timer * env :=
+  if tm_en t then let (t1, e1) := timer_unregister e t in timer_register e1 t1 f
+  else (RROk, t, e).
+
 Definition one_gen (r : bool * gen * env) (k : gen -> src) : rr * src * env :=
   let '(ok, g', e') := r in ((if ok then RROk else RRErr), k g', e').
 
 Definition src_register (e : env) (x : src) (f : factory) : rr * src * env :=
   match x with
-  | SComp lc own subs =>
+  | SComp lc own subs tmr =>
       match ftoken f with
       | None => (RRPanic, x, e)
-      | Some (t, f') => let '(r, subs', _, e') := subs_register e subs f' in (r, SComp lc (Some t) subs', e')
+      | Some (t, f') =>
+          let '(r, subs', f'', e') := subs_register e subs f' in
+          match r, tmr with
+          | RROk, Some tm => let '(r2, tm', e'') := timer_register e' tm f'' in (r2, SComp lc (Some t) subs' (Some tm'), e'')
+          | _, _ => (r, SComp lc (Some t) subs' tmr, e')
+          end
       end
   | SPing g => match ftoken f with None => (RRPanic, x, e) | Some (t, _) => one_gen (gen_register e g t) SPing end
   | SChan c g => match ftoken f with None => (RRPanic, x, e) | Some (t, _) => one_gen (gen_register e g t) (SChan c) end
@@ -218,10 +230,15 @@ Definition src_register (e : env) (x : src) (f : factory) : rr * src * env :=
   end.
 Definition src_reregister (e : env) (x : src) (f : factory) : rr * src * env :=
   match x with
-  | SComp lc own subs =>
+  | SComp lc own subs tmr =>
       match ftoken f with
       | None => (RRPanic, x, e)
-      | Some (t, f') => let '(r, subs', _, e') := subs_reregister e subs f' in (r, SComp lc (Some t) subs', e')
+      | Some (t, f') =>
+          let '(r, subs', f'', e') := subs_reregister e subs f' in
+          match r, tmr with
+          | RROk, Some tm => let '(r2, tm', e'') := timer_reregister e' tm f'' in (r2, SComp lc (Some t) subs' (Some tm'), e'')
+          | _, _ => (r, SComp lc (Some t) subs' tmr, e')
+          end
       end
   | SPing g => match ftoken f with None => (RRPanic, x, e) | Some (t, _) => one_gen (gen_reregister e g t) SPing end
   | SChan c g => match ftoken f with None => (RRPanic, x, e) | Some (t, _) => one_gen (gen_reregister e g t) (SChan c) end
@@ -232,17 +249,22 @@ Definition src_reregister (e : env) (x : src) (f : factory) : rr * src * env :=
   end.
 Definition src_unregister (e : env) (x : src) : bool * src * env :=
   match x with
-  | SComp lc own subs => let '(ok, subs', e') := subs_unregister e subs in (ok, SComp lc None subs', e')
+  | SComp lc own subs tmr =>
+      let '(ok, subs', e') := subs_unregister e subs in
+      match ok, tmr with
+      | true, Some tm => let (tm', e'') := timer_unregister e' tm in (true, SComp lc None subs' (Some tm'), e'')
+      | _, _ => (ok, SComp lc None subs' tmr, e')
+      end
   | SPing g => let '(ok, g', e') := gen_unregister e g in (ok, SPing g', e')
   | SChan c g => let '(ok, g', e') := gen_unregister e g in (ok, SChan c g', e')
   | STimer t => let (t', e') := timer_unregister e t in (true, STimer t', e')
   end.
-Definition src_lc (x : src) : bool := match x with SComp lc _ _ => lc | _ => false end.
+Definition src_lc (x : src) : bool := match x with SComp lc _ _ _ => lc | _ => false end.
 
 (* dropping a source object (last Rc gone) *)
 Definition src_drop (e : env) (x : src) : env :=
   match x with
-  | SComp _ _ subs => fold_left gen_drop subs e
+  | SComp _ _ subs _ => fold_left gen_drop subs e
   | SPing g => gen_drop e g
   | SChan c g =>
       let e1 := gen_drop e g in
@@ -268,7 +290,7 @@ Definition is_running (s : st) (o : N) : bool := match running s with Some (r, _
 (* instrumented composite sources log their register/reregister/unregister calls *)
 Definition regop (s : st) (o : N) (x : src) (kind : Z) (ok : bool) : st :=
   match x with
-  | SComp _ _ _ => emit s (L T_REGOP [zN o; kind; if ok then 0%Z else 1%Z])
+  | SComp _ _ _ _ => emit s (L T_REGOP [zN o; kind; if ok then 0%Z else 1%Z])
   | _ => s
   end.
 
@@ -451,7 +473,7 @@ Definition do_setint (s : st) (h : N) (j : nat) (it : interest) (m : mode) : st 
       if negb (o_ext ob) then emit s (op_line OP_SETINT h RInvalid) else
       if is_running s h then panic s P_BORROW else
       match o_src ob with
-      | SComp lc own subs => emit (set_obj_src s h (SComp lc own (set_nth_gen subs j it m))) (op_line OP_SETINT h ROk)
+      | SComp lc own subs tmr => emit (set_obj_src s h (SComp lc own (set_nth_gen subs j it m) tmr)) (op_line OP_SETINT h ROk)
       | _ => emit s (op_line OP_SETINT h ROther)
       end
   | None => emit s (op_line OP_SETINT h RInvalid)
@@ -463,6 +485,8 @@ Definition do_setdl (s : st) (h : N) (dl : Z) : st :=
       if is_running s h then panic s P_BORROW else
       match o_src ob with
       | STimer t => emit (set_obj_src s h (STimer (mkTimer (tm_reg t) (Some dl) (tm_en t)))) (op_line OP_SETDL h ROk)
+      | SComp lc own subs (Some t) =>
+          emit (set_obj_src s h (SComp lc own subs (Some (mkTimer (tm_reg t) (Some dl) (tm_en t))))) (op_line OP_SETDL h ROk)
       | _ => emit s (op_line OP_SETDL h ROther)
       end
   | None => emit s (op_line OP_SETDL h RInvalid)
@@ -644,18 +668,38 @@ Definition chan_max (e : env) (c : N) : nat :=
   | None => O
   end.
 
+(* the Timer sub-source of a composite is shown the event: Timer::process_events; the composite ignores the PostAction it returns *)
+Definition timer_sub_fire (scr : scripts) (s : st) (o : N) (tm : timer) (t : tok) (sub : Z) (wrap : timer -> src) : st :=
+  match tm_reg tm, tm_dl tm with
+  | Some (tk, c), Some dl =>
+      if tok_eqb tk t then
+        let (s1, sc) := callback scr s o sub dl in
+        match sc_ret sc with
+        | 0 => s1                                                                      (* TimeoutAction::Drop *)
+        | 1 => set_obj_src (eenv s1 (fun e => set_whl e (wh_insert_reuse (whl e) c (sc_arg sc) tk))) o
+                           (wrap (mkTimer (Some (tk, c)) (Some (sc_arg sc)) (tm_en tm)))           (* ToInstant *)
+        | _ => set_obj_src s1 o (wrap (mkTimer (Some (tk, c)) None (tm_en tm)))            (* ToDuration(MAX) *)
+        end
+      else s
+  | _, _ => s
+  end.
+
 Definition obj_process (scr : scripts) (s : st) (o : N) (ev : pevent) : st * option postaction :=
   let t := unpack (ev_key ev) in
   match objs s o with
   | None => (s, Some Continue)
   | Some ob =>
       match o_src ob with
-      | SComp lc own subs =>
+      | SComp lc own subs tmr =>
           let hit := if opt_tok_is own t then Some 0%Z
                      else match find_sub subs t 1 with Some j => Some (Z.of_nat j) | None => None end in
           match hit with
           | Some j => let (s1, sc) := callback scr s o j (zN (rd_code (ev_rd ev))) in (s1, pa_of_ret (sc_ret sc))
-          | None => (s, Some Continue)
+          | None =>
+              match tmr with
+              | Some tm => (timer_sub_fire scr s o tm t (Z.of_nat (S (length subs))) (fun tm' => SComp lc own subs (Some tm')), Some Continue)
+              | None => (s, Some Continue)
+              end
           end
       | SPing g =>
           let '(s1, r, pinged) := ping_drain s g t in
@@ -773,7 +817,7 @@ Fixpoint before_sleep_loop (bscr : bscripts) (s : st) (l : list tok) : st * bsre
           match code with
           | 0 => before_sleep_loop bscr s1 r
           | 1 => let own := match objs s1 o with
-                            | Some ob => match o_src ob with SComp _ (Some tk) _ => Some tk | _ => None end
+                            | Some ob => match o_src ob with SComp _ (Some tk) _ _ => Some tk | _ => None end
                             | None => None
                             end in
                  match own with
